@@ -21,7 +21,30 @@ def table_ids():
     return re.findall(r'\("(\w+)", "(\w+)", (?:Some "[^"]*"|None),', txt)
 
 
+def table_members():
+    """per table, its members in name order: [(name, ('int', v) | ('range', lo, hi))] (read from Gen/Subfunctions.v)"""
+    txt = open(os.path.join(COQ, 'Gen', 'Subfunctions.v')).read()
+    out = []
+    for blk in re.findall(r'\("\w+", "\w+", (?:Some "[^"]*"|None),\s*\[(.*?)\]\)', txt, re.S):
+        ms = []
+        for n, kind, a, b in re.findall(r'\("(\w+)", (GInt|GRange) \(?(-?\d+)\)?(?: \(?(-?\d+)\)?)?\)', blk):
+            ms.append((n, ('int', int(a)) if kind == 'GInt' else ('range', int(a), int(b))))
+        out.append(ms)
+    return out
+
+
 def gen_cases(tier, seed):
+    # a table derived from a library table that RE-DEFINES one inherited constant (another value, a narrower or a moved range): the
+    # derived table's own definitions count, the parent's old value is no longer that constant
+    tm = table_members()
+    for i, ms in enumerate(tm):
+        for k, (n, m) in enumerate(ms):
+            news = [(0, 0x44, 0), (0, 0x7E, 0)] if m[0] == 'int' else [(1, m[1], (m[1] + m[2]) // 2), (1, m[1] + 3, m[2]), (0, m[1], 0)]
+            for kind, x, y in news:
+                olds = [m[1]] if m[0] == 'int' else [m[1], m[2], (m[1] + m[2]) // 2 + 1, m[1] + 1]
+                for v in sorted(set(olds + [x, y, 0, 1, 0x44, 0x7E, 0xFF])):
+                    if 0 <= v <= 255:
+                        yield Case(2006, [i, v, k, kind, x, y], [], 'subfunction name in a derived table that re-defines a constant')
     for i, _ in enumerate(table_ids()):
         for v in range(-1, 257):
             yield Case(2001, [i, v], [], 'subfunction name')
@@ -78,6 +101,19 @@ class IntValue(int):
     """an integer that is not the interpreter's cached small-int object (an enum.IntEnum member behaves the same)"""
 
 
+_members = None
+
+
+def redefined(c):
+    """class Oem<Table>(<Table>): <k-th constant> = new value"""
+    global _members
+    if _members is None:
+        _members = table_members()
+    i, v, k, kind, x, y = c.ints
+    name = _members[i][k][0]
+    return type('Oem' + _tables[i].__name__, (_tables[i],), {name: x if kind == 0 else (x, y)})
+
+
 def m_ostr(f):
     try:
         return [0] + enc_opt(enc_str, f())
@@ -89,6 +125,8 @@ def impl(c):
     from udsoncan import DataIdentifier, Routine, Dtc
     from udsoncan.ResponseCode import ResponseCode
     i, v = c.ints[:2]
+    if c.entry == 2006:
+        return enc_str(redefined(c).get_name(v))
     if len(c.ints) > 2 and c.ints[2] == 3:
         return enc_str(derived(_tables[i]).get_name(v))
     if len(c.ints) > 2 and c.ints[2] == 4:
@@ -144,6 +182,22 @@ def oracle(c, r):
     i, v = c.ints[:2]
     if len(c.ints) > 2 and c.ints[2] == 4:
         v = IntValue(v)
+    if c.entry == 2006:
+        # the rule of the property on the derived table's effective constants (a re-defined name has its new value only)
+        look = redefined(c)
+        eff = {}
+        for klass in reversed(look.__mro__):
+            for kk, xx in vars(klass).items():
+                if not (kk.startswith('__') and kk.endswith('__')) and isinstance(xx, (int, tuple)):
+                    eff[kk] = xx
+        n = look.get_name(v)
+        exact = [kk for kk, xx in eff.items() if isinstance(xx, int) and xx == v]
+        inr = [kk for kk, xx in eff.items() if isinstance(xx, tuple) and xx[0] <= v <= xx[1]]
+        custom = 'Custom %s' % getattr(look, '__pretty_name__', look.__name__)
+        if not ((n in exact + inr) if (exact or inr) else n == custom):
+            return ('subfn-name-derived', '%s.get_name(%#x) = %r in a table that re-defines %s: constants with that value %r, ranges containing it %r' % (
+                look.__qualname__, v, n, _members[i][c.ints[2]][0], exact, inr))
+        return None
     if c.entry == 2001:
         if not (0 <= v <= 255):
             return None
@@ -201,5 +255,5 @@ def nontrivial(c, r):
 
 def describe(c):
     t = table_ids()
-    return {2001: 'BaseSubfunction table %s.get_name(v)' % ('.'.join(t[c.ints[0]]) if c.ints[0] < len(t) else '?'), 2002: 'ResponseCode.get_name(v)',
+    return {2006: 'derived table re-defining constant %d' % (c.ints[2] if len(c.ints) > 2 else -1), 2001: 'BaseSubfunction table %s.get_name(v)' % ('.'.join(t[c.ints[0]]) if c.ints[0] < len(t) else '?'), 2002: 'ResponseCode.get_name(v)',
             2003: 'DataIdentifier.name_from_id(v)', 2004: 'Routine.name_from_id(v)', 2005: 'Dtc.Format.get_name(v)'}[c.entry] + ' v=%#x' % c.ints[1]
